@@ -797,6 +797,7 @@ package kcache
   requires (and (not (= {s} vnil)) (not (= {s.client} vnil)))
   at call(Watch) assert [resumes-from-the-session-version-with-watch-set] (and (= (|meta/v1.ListOptions.ResourceVersion| $1) {s.version}) (|meta/v1.ListOptions.Watch| $1))
   at call(Watch) assert [uses-the-session-context] (= $0 {s.ctx})
+  ensures [connection-or-error] (=> (= result1 vnil) (not (= result0 vnil)))
 @*/
 
 /*@ func (*kcache._watchSession).stop
